@@ -91,19 +91,34 @@ def scenario(ctx, rng, M, n_done, crash):
             ctx.record(case, True, agree, ok, n_done >= 1,
                        sample={"M": M, "completed_runs": n_done, "crash": crash, "pointer_after": ptr} if n_done >= 1 else None,
                        detail={"model_agrees": agree, "state_ok": spec, "ok_show": ok_show, "show_err": err2, "ok_log": ok_log, "log_rc": rcl, "ok_cp": ok_cp, "pointer": ptr})
-        # the next run must succeed normally
+        # the next run must succeed normally - also when it is a DIFFERENT invocation than the one that crashed: nothing the crashed
+        # run left in the slot may survive into it (its logs are exactly the new run's, `log show` works and shows only the new run)
         rr.script = {"*": {}}; rr.write_script()
-        rc, out, err, raw = rr.run("-c", "build")
+        next_cmds = rng.choice([["build"], ["test"], ["build", "test"]])
+        next_args = ["-c"] + next_cmds + (["-t", rng.choice(["libs/a", "app"])] if rng.random() < 0.5 else [])
+        rc, out, err, raw = rr.run(*next_args)
         ok_next = rc == 0 and out is not None and not out.get("failed")
+        leftovers, foreign, log_rc, markers = [], [], None, []
         if ok_next:
             obs, slots, ptr = observe(rr, ids, M)
+            planned = set()
+            for cmd, groups in runscen.result_statuses(out):
+                for g in groups:
+                    for t in g:
+                        for sfile in ("stdout.zst", "stderr.zst"): planned.add(os.path.join(cmd, runscen.thash(t), sfile))
+            cur = slots.get(ptr, {"logs": {}, "result": None})
+            leftovers = [p for p in cur["logs"] if p not in planned]
+            foreign = [p for p, d in cur["logs"].items() if d and not d.startswith(b"run=%d " % rr.run_no)]
+            rcl, _, _, rawl = vlib.monorail(rr.repo, "log", "show", "--stdout", "--stderr")
+            log_rc = rcl; markers = sorted(set(int(x) for x in re.findall(rb"^run=(\d+) ", rawl.stdout, flags=re.M)))
             recs.append([obs[1][ptr][0], obs[1][ptr][1][0]])
             v = ctx.model.call("tracking", M, recs, obs)
-            ok_next = bool(v[3]); agree2 = bool(v[2])
+            ok_next = bool(v[3]) and not leftovers and not foreign and rcl == 0 and set(markers) <= {rr.run_no}; agree2 = bool(v[2])
         else:
             agree2 = False
-        ctx.record(dict(case, what="next run after the crash"), True, agree2, ok_next, True,
-                   detail={"rc": rc, "err": err, "what": "the run after the crash must succeed and satisfy C12"})
+        ctx.record(dict(case, what="next run after the crash", next_args=next_args), True, agree2, ok_next, True,
+                   detail={"rc": rc, "err": err, "what": "the run after the crash must succeed and satisfy C12: only its own files in the slot, log show works",
+                           "leftover_files": leftovers[:4], "foreign_content": foreign[:4], "log_show_rc": log_rc, "log_show_markers": markers})
     finally:
         rr.close()
 
